@@ -95,7 +95,7 @@ func twinMonitor(keys *Keys, h History, ref *Trace, r *rand.Rand) []Failure {
 				b = nb
 			}
 			tw.Blocks = append(tw.Blocks, b)
-			if bi == l.b {
+			if bi == l.b+1 { // one block further: traces that only surface in the next BeginBlock
 				break
 			}
 		}
@@ -106,6 +106,11 @@ func twinMonitor(keys *Keys, h History, ref *Trace, r *rand.Rand) []Failure {
 		rb, ob := ref.Blocks[l.b], tr.Blocks[l.b]
 		if rb.After == nil || ob.After == nil {
 			continue
+		}
+		// the following block, when both chains have it
+		var rb2, ob2 *BlockTrace
+		if l.b+1 < len(ref.Blocks) && l.b+1 < len(tr.Blocks) && ref.Blocks[l.b+1].After != nil && tr.Blocks[l.b+1].After != nil {
+			rb2, ob2 = ref.Blocks[l.b+1], tr.Blocks[l.b+1]
 		}
 		txs := rb.Spec.Txs[l.t]
 		kinds := []string{}
@@ -145,6 +150,16 @@ func twinMonitor(keys *Keys, h History, ref *Trace, r *rand.Rand) []Failure {
 		}
 		if strip(rb.After.Lines()) != strip(ob.After.Lines()) || fmt.Sprint(rb.Updates) != fmt.Sprint(ob.Updates) {
 			fs = append(fs, Failure{"C06", "C06/failed-tx-changed-projection", rb.Height, fmt.Sprintf("block %d tx %d (%s)", rb.Height, l.t, what)})
+			continue
+		}
+		// one block later (store hashes legitimately differ there: x/staking records the header, whose app hash includes the
+		// signer's sequence number): the projected state must still agree
+		if rb2 != nil && (strip(rb2.After.Lines()) != strip(ob2.After.Lines()) || fmt.Sprint(rb2.Updates) != fmt.Sprint(ob2.Updates)) {
+			detail := fmt.Sprintf("block %d tx %d (%s): the state one block later differs from the chain without the transaction", rb.Height, l.t, what)
+			fs = append(fs, Failure{"C06", "C06/failed-tx-left-trace-visible-in-next-block", rb2.Height, detail})
+			if gatedNonAdmin {
+				fs = append(fs, Failure{"C01", "C01/rejected-non-admin-message-changed-state:next-block", rb2.Height, detail})
+			}
 		}
 	}
 	return fs
